@@ -206,6 +206,8 @@ def r3_line_grammar(ctx: Ctx) -> None:
     eqs = [k for k, (op, av) in enumerate(items) if str(op) == "LITERAL" and chr(av) == "="]
     if len(eqs) == 1 and eqs[0] + 1 < len(items):
         op_n, av_n = items[eqs[0] + 1]
+        if str(op_n) == "SUBPATTERN" and av_n[0] != groups.get("text"):
+            raise AnalysisError(f"table_line_regex: a group other than `text` follows `=` in {pat!r}; not modelled")
         ctx.check(str(op_n) == "SUBPATTERN" and av_n[0] == groups.get("text"), "table_line_regex:text-follows-equals",
                   f"the text group starts immediately after `=`, so an entry's leading blanks are kept; pattern {pat!r}", fact=True)
     elif shape_ok:
